@@ -567,6 +567,8 @@ def check_g(ctx, facts, tier, seed, sm=None):
     percfg = 1 if tier == 'quick' else 3
     designs = []
     for sp in SPECS:
+        if sp['name'].endswith(':constant-operand'):
+            continue        # the dut of this entry is fed by a sibling Constant: not a closed design of its own
         cfgs = list(sp['configs'](tier))
         step = max(1, len(cfgs) // percfg)
         for p in cfgs[len(cfgs) // 2::step][:percfg]:
